@@ -1,5 +1,5 @@
 """C09 -- fill refuses exactly when under-determined or inconsistent; never distorts data."""
-import fractions, importlib, itertools, os, shutil, tempfile, types
+import fractions, json, importlib, itertools, os, shutil, tempfile, types
 import numpy
 import pandas
 import sympy as sp
@@ -80,7 +80,7 @@ def run(s):
         return core.proved("z3", "%d symbolic paths x 4 flag combinations: raises Warning iff (rank<21 and not ignore_rank) or (a residual > tolerance and "
                                  "not ignore_residuals); the residual is |a x - b|^2 of the captured system" % n,
                            sample="raise <=> (RANK < 21 and not ignore_rank) or (exists v: |a X_v - b_v|^2 > residual_atol and not ignore_residuals)")
-    s.oblige("C09.refusal_decision_logic", decision, [F])
+    s.oblige("C09.refusal_decision_logic", decision, [F], fallback=lambda: native_decision(fill))
 
     def trivial_cases():
         df = pandas.DataFrame({"c11": [1.0, 2.0]})
@@ -166,10 +166,19 @@ def run(s):
             if rows0 != rows1:
                 return core.refuted("symnp", "reordering / upper-casing the columns changes the least-squares system (beyond a row permutation)",
                                     witness_id="order-case", replay={"reproduced": True, "order": order})
+            labels = [str(c).lower() for c in r["value"].columns]
+            if len(set(labels)) != len(labels):
+                dup = sorted(set(l for l in labels if labels.count(l) > 1))
+                return core.refuted("symnp", "with the columns spelled %s the result lists the component(s) %s twice (a second copy next to the supplied column)" % (cols, dup),
+                                    witness_id="case-duplicates", replay=native_case(fill))
             if [str(c) for c in r["value"].columns[:7]] != cols:
                 return core.refuted("symnp", "output column names do not keep the caller's spelling: %s" % list(r["value"].columns[:7]), witness_id="spelling",
                                     replay={"reproduced": True})
-        return core.proved("symnp", "the captured system is invariant under column order and letter case up to a row permutation; output keeps the caller's spelling")
+        nat = native_case(fill)
+        if nat["reproduced"]:
+            return core.refuted("runtime-contract", json.dumps(nat)[:600], witness_id="case-native", replay=nat)
+        return core.proved("symnp", "the captured system is invariant under column order and letter case up to a row permutation; output keeps the caller's spelling, "
+                                    "every component appears once (also on the real function for four spellings of a cubic, a hexagonal and a trigonal7 table)")
     s.oblige("C09.order_and_case_independence", order_case, [F])
 
     def triclinic_underdetermined():
@@ -195,16 +204,55 @@ def run(s):
     s.min_obligations = 17
 
 
+def native_case(fill):
+    """the real fill_cij on one table spelled lower / upper / mixed (either case first): same components once each, same values, non-modulus columns untouched"""
+    tables = [("cubic", {"c11": [300.0, 320.0], "c12": [100.0, 110.0], "c44": [80.0, 90.0]}),
+              ("hexagonal", {"c11": [300.0, 320.0], "c33": [250.0, 255.0], "c12": [100.0, 110.0], "c13": [70.0, 75.0], "c44": [80.0, 90.0]}),
+              ("trigonal7", {"c11": [300.0, 1.0], "c33": [250.0, 2.0], "c12": [100.0, 3.0], "c13": [70.0, 4.0], "c44": [80.0, 5.0], "c14": [-15.0, 6.0], "c15": [9.0, 7.0]})]
+    for system, table in tables:
+        ref = None
+        for style in ("lower", "upper", "lower-first mixed", "upper-first mixed"):
+            keys = list(table)
+            spell = {k: (k if style == "lower" else k.upper() if style == "upper" else (k.upper() if (i % 2 == (0 if style.startswith("upper") else 1)) else k)) for i, k in enumerate(keys)}
+            df = pandas.DataFrame(dict({"V": [500.0, 450.0]}, **{spell[k]: table[k] for k in keys}))
+            try:
+                out = fill.fill_cij(df.copy(), system)
+            except Exception as e:  # noqa: BLE001
+                return {"reproduced": True, "system": system, "spelling": list(spell.values()), "observed": "raises %r" % (e,), "expected": "the same table as for the lower-case spelling"}
+            labels = [str(c).lower() for c in out.columns]
+            vals = {l: out[c].tolist() for l, c in zip(labels, out.columns)}
+            if len(set(labels)) != len(labels):
+                return {"reproduced": True, "system": system, "spelling": list(spell.values()), "observed": "columns %s: a component listed twice" % list(out.columns),
+                        "expected": "every component once"}
+            if ref is None:
+                ref = vals
+            elif set(vals) != set(ref) or any(not numpy.allclose(vals[k], ref[k], rtol=1e-12, atol=1e-12) for k in ref):
+                return {"reproduced": True, "system": system, "spelling": list(spell.values()), "observed": "components %s / values differ from the lower-case spelling" % sorted(vals),
+                        "expected": "outcome independent of letter case"}
+    return {"reproduced": False, "evaluations": 12}
+
+
 def native_decision(fill):
     cases = [({"c11": [100.0], "c22": [200.0], "c12": [50.0]}, dict(ignore_rank=True), "raise"),       # contradiction must be refused although rank deficient
              ({"c11": [100.0], "c12": [50.0]}, dict(), "raise"),
              ({"c11": [100.0], "c12": [50.0]}, dict(ignore_rank=True), "return"),
              ({"c11": [100.0], "c22": [100.0], "c12": [50.0], "c44": [30.0]}, dict(), "return"),
              ({"c11": [100.0], "c22": [130.0], "c12": [50.0], "c44": [30.0]}, dict(), "raise"),
-             ({"c11": [100.0], "c22": [130.0], "c12": [50.0], "c44": [30.0]}, dict(ignore_residuals=True), "return")]
+             ({"c11": [100.0], "c22": [130.0], "c12": [50.0], "c44": [30.0]}, dict(ignore_residuals=True), "return"),
+             # moderate contradictions: supplied c11 - c22 = d against the relation c11 = c22 has least-squares misfit d^2/3 (the relation row absorbs a third of it)
+             ({"c11": [100.0], "c22": [100.0 + (3 * 2.0 * 0.1) ** 0.5], "c12": [50.0], "c44": [30.0]}, dict(residual_atol=0.1), "raise"),          # misfit = 2 x tolerance
+             ({"c11": [100.0], "c22": [100.0 + (3 * 0.5 * 0.1) ** 0.5], "c12": [50.0], "c44": [30.0]}, dict(residual_atol=0.1), "return"),         # misfit = tolerance / 2
+             ({"c11": [100.0, 90.0], "c22": [100.0, 90.0 - (3 * 1.5 * 0.1) ** 0.5], "c12": [50.0, 40.0], "c44": [30.0, 20.0]}, dict(), "raise"),        # 1.5 x default tolerance, second volume only
+             ({"c11": [100.0], "c22": [100.0 + (3 * 2.0 * 0.1) ** 0.5], "c12": [50.0], "c44": [30.0]}, dict(ignore_residuals=True), "return"),
+             # hexagonal c66 = (c11 - c12)/2: rows x66, x11, x12 and relation x66 - x11/2 + x12/2 = 0, |r|^2 = 3/2, misfit d^2/(1 + 3/2)
+             ({"c11": [300.0], "c33": [250.0], "c12": [100.0], "c13": [70.0], "c44": [80.0], "c66": [100.0 + (2.5 * 2.0 * 0.1) ** 0.5]}, dict(), "raise-hexagonal"),
+             ({"c11": [300.0], "c33": [250.0], "c12": [100.0], "c13": [70.0], "c44": [80.0], "c66": [100.0 + (2.5 * 0.5 * 0.1) ** 0.5]}, dict(), "return-hexagonal")]
     for table, kw, want in cases:
+        system = "cubic"
+        if "-" in want:
+            want, system = want.split("-")
         try:
-            fill.fill_cij(pandas.DataFrame(table), "cubic", **kw)
+            fill.fill_cij(pandas.DataFrame(table), system, **kw)
             got = "return"
         except Warning:
             got = "raise"
